@@ -277,6 +277,20 @@ def run(rep, tier):
                            "model's header name with the model's text (strings verbatim, timestamps in the member's format, integers, booleans)" % (
                                _fill_cache["ops"], _fill_cache["checked"]), "replayer(not solver-decided)", "holds", time.time() - t1,
                            queries=_fill_cache["checked"])
+    # response documents: the symbolic XML codec obligations of C13 (what the backend returns in a body is what a client decodes)
+    t1 = time.time()
+    try:
+        import C13
+        n0 = len(rep.obligations)
+        nbad, n_types, n_runs = C13.codec(rep)
+        xml_obl = [o for o in rep.obligations[n0:] if o["name"].startswith("xml(")]
+        # keep the evidence of this property readable: the per-type obligations are summarised in one line
+        del rep.obligations[n0:]
+        bad = [o for o in xml_obl if o["result"] != "holds"]
+        rep.obligation("response documents: XML codec obligations of %d types (round trip incl. empty wrapped lists, names, binding; shared with C13): "
+                       "%d hold" % (len(xml_obl), len(xml_obl) - len(bad)), "rsx+z3", "holds" if not rep.violations else "violated", time.time() - t1, queries=n_runs)
+    except (rsx.Unsupported, Inconclusive) as e:
+        rep.fail_inconclusive("response documents: %s" % e)
     for d in prof.CATALOGUE_DOC:
         rep.assume("catalogue: " + d)
     kspec.run_spec(rep, "C03", tier, budget_s=300)
@@ -327,6 +341,8 @@ def fill_outcomes(rep, model):
                 want = TS_TEXT[i["timestamp_format"] or "http-date"]
             elif kind == "string":
                 want = "F-" + f[0]
+            elif kind == "mime":
+                want = "text/plain; charset=utf-8"
             else:
                 want = {"int": "7", "bool": "true"}[kind]
             got = hs.get(i["wire"].lower())
